@@ -46,7 +46,7 @@ theorem inv_emptyState (cfg : Config) (E : List Nat → Prop) (c : Nat) : Inv cf
 theorem runOp_inv {cfg : Config} {E : List Nat → Prop} {c : Nat} (hsep : cfg.sep = [c]) (plan : Nat → Fault)
     {s : St} (op : Op) (hE : ∀ e ∈ op.events, E e) (hinv : Inv cfg E c s) : Inv cfg E c (runOp cfg plan s op) := by
   cases op with
-  | batch now id b => exact onBatch_inv hsep plan now id b s hE hinv
+  | batch now id b => exact onBatch_inv (.inl hsep) plan now id b s hE hinv
   | restart => exact ⟨hinv.nodup, hinv.good, fun a h => by simp [runOp, restart] at h⟩
 
 /-- **Chunk invariant** (DESIGN A.3). For every configuration with a one-byte separator, every fault plan and
@@ -160,7 +160,7 @@ theorem run_rel {cfg : Config} {E : List Nat → Prop} {c : Nat} (hsep : cfg.sep
     have h1 : Rel cfg s (runOp cfg plan s op) := by
       cases op with
       | batch now id b =>
-        exact (onBatch_spec hsep plan now id b s (hE (.batch now id b) (by simp)) h).1.rel h.nodup
+        exact (onBatch_spec (.inl hsep) plan now id b s (hE (.batch now id b) (by simp)) h).1.rel h.nodup
       | restart => exact Rel.of_same_fs [] (by simp [runOp, restart]) (by simp) rfl
     exact h1.trans (ih _ (runOp_inv hsep plan op (hE op (by simp)) h) (fun o ho => hE o (by simp [ho])))
 
@@ -178,7 +178,7 @@ theorem acked_never_lost {cfg : Config} {E : List Nat → Prop} {c : Nat} (hsep 
           ∀ e ∈ b.rest, Occurs c e f'.synced) := by
   obtain ⟨a, f, ha, _, hget, hd, _, hocc⟩ := acked_durable hsep hwf plan now id b s s' hinv hE h
   have hinv' : Inv cfg E c s' := by
-    have := onBatch_inv hsep plan now id b s hE hinv
+    have := onBatch_inv (.inl hsep) plan now id b s hE hinv
     rw [h] at this; exact this
   obtain ⟨⟨extra, hlog, _, hdur⟩, _⟩ := run_rel hsep plan ops s' hinv' hE'
   refine ⟨a, ha, ?_⟩
@@ -202,7 +202,7 @@ theorem failed_batch_rewritten {cfg : Config} {E : List Nat → Prop} {c : Nat} 
         b.rest = pre ++ e :: post ∧ b'.rest = e :: post ∧
         writeEvents cfg plan a0 b s0 pre = (.ok, some a1, s1) ∧ writeEvent cfg plan a1 e s1 = .err s') := by
   constructor
-  · have := (onBatch_spec hsep plan now id b s hE hinv).2
+  · have := (onBatch_spec (.inl hsep) plan now id b s hE hinv).2
     rw [h] at this
     cases hs : s'.active with
     | none => rfl
@@ -219,7 +219,7 @@ theorem failed_batch_rewritten {cfg : Config} {E : List Nat → Prop} {c : Nat} 
         obtain ⟨a1, _, _⟩ := acquire_spec (cfg := cfg) (E := E) (c := c) plan now id b s hinv.active
         simp only [hacq, R.st] at a1
         have hok := (acquire_spec (cfg := cfg) (E := E) (c := c) plan now id b s hinv.active).2.2 a0 s1 hacq
-        obtain ⟨_, w2, _⟩ := writeEvents_spec hsep plan b.rest a0 b s1 hE (a1.nodup hinv.nodup)
+        obtain ⟨_, w2, _⟩ := writeEvents_spec (.inl hsep) plan b.rest a0 b s1 hE (a1.nodup hinv.nodup)
           (a1.goodInv hinv.nodup hinv.good) hok
         have w2' := w2 a2
         generalize hw : writeEvents cfg plan a0 b s1 b.rest = w at h w2'
